@@ -64,7 +64,7 @@ def run(tier, scratch, t0, replay=None):
     batches = D.build_batches(scratch, [v for v in VERSIONS if v in K.available_interps()], tier, "C13",
                               n_stdlib=6 if quick else 150, n_gen=16 if quick else 300, batch=30, with_corpus=False,
                               gen_snippets=3 if quick else None,
-                              must_templates=["t_opcode_zoo", "t_opcode_zoo2", "t_set_of_bytes", "t_shared_frozenset", "t_shared_big_tuple", "t_strings", "t_ints", "t_py2_long", "t_floats",
+                              must_templates=["t_opcode_zoo", "t_opcode_zoo2", "t_set_iter_order", "t_set_of_bytes", "t_shared_frozenset", "t_shared_big_tuple", "t_strings", "t_ints", "t_py2_long", "t_floats",
                                               "t_complex", "t_bytes", "t_containers", "t_closure"])
 
     def do_batch(b):
@@ -102,7 +102,12 @@ def run(tier, scratch, t0, replay=None):
             for it, r in zip(its, recs):
                 if it["gen"] and r.get("written"):
                     exec_files += [it["pyc"], r["new"]]
-        ex = exec_batch(v, sorted(set(exec_files)), wd, b["tag"] + "-exec")
+        # CPython's own read-then-write of every original (marshal.loads -> marshal.dumps in the target interpreter): the
+        # yardstick for differences that the marshal format itself cannot avoid (member order of frozenset constants)
+        origs0 = sorted(set(it["pyc"] for h, (its, recs) in outs.items() for it, r in zip(its, recs) if it["gen"] and r.get("written")))
+        tfr, errr = K.run_truth(v, "redump", {"files": origs0}, wd, b["tag"] + "-redump", timeout=600)
+        own = [p + ".own.pyc" for p in origs0 if os.path.exists(p + ".own.pyc")]
+        ex = exec_batch(v, sorted(set(exec_files) | set(own)), wd, b["tag"] + "-exec")
         # determinism control: each original is executed a second time (other process, other order); a program whose own two
         # runs differ (addresses, time, hash order ...) cannot witness a difference made by the rewrite
         origs = sorted(set(it["pyc"] for h, (its, recs) in outs.items() for it, r in zip(its, recs) if it["gen"] and r.get("written")))
@@ -180,6 +185,12 @@ def run(tier, scratch, t0, replay=None):
                                 dk = sorted(k for k in set(eo["globals"]) | set(en["globals"])
                                             if nan_norm(eo["globals"].get(k)) != nan_norm(en["globals"].get(k)))
                                 det = dict(det, differing_globals=dk[:5], first=[eo["globals"].get(dk[0]), en["globals"].get(dk[0])] if dk else None)
+                            eown = ex.get(it["pyc"] + ".own.pyc")
+                            if eown and eown.get("ok") and (eown["stdout"], eown["exc"], nan_norm(eown["globals"])) == \
+                                    (en["stdout"], en["exc"], nan_norm(en["globals"])):
+                                # the file xdis wrote behaves exactly like the one CPython's own marshal writes after reading
+                                # the original: the difference is made by the format (it stores set members in iteration order)
+                                which += "|as-cpython-own-marshal-round-trip"
                             res.mismatches.append({"key": "C13|%s|exec|behaves-differently:%s" % (tag, which),
                                                    "detail": dict(det, original=str(eo.get(which if which != "exception" else "exc"))[-200:],
                                                                   rewritten=str(en.get(which if which != "exception" else "exc"))[-200:])})
